@@ -387,6 +387,13 @@ Definition obs_of (p : path) : obs :=
         (flat_map (fun sl => map snd (sl_hops sl)) (p_slices p))
         (p_exp p) (p_mtu p) (p_weight p).
 
+(** compact notation for the generated cases: a hop field with its MAC given as
+    the big-endian number of the 6 bytes *)
+Definition be6 (m : N) : list N :=
+  [m / 1099511627776 mod 256; m / 4294967296 mod 256; m / 16777216 mod 256;
+   m / 65536 mod 256; m / 256 mod 256; m mod 256].
+Definition hopN (i e x m : N) : hopf := mkHop i e x (be6 m).
+
 Inductive case :=
 | CCombine (src dst : N) (ups cores downs : list (N * segment)) (find_all : bool)
            (impl : option (list obs)).    (* None = Combine panicked *)
@@ -497,7 +504,7 @@ Definition check28 (c : case) : N :=
     Check.verdict (agree src dst ups cores downs fa impl)
       (match impl with
        | Some os => ok28 src dst ups cores downs fa os
-       | None => existsb seg_empty (insegs ups cores downs)   (* a panic is allowed only on an empty segment *)
+       | None => true     (* C28 speaks about returned paths only *)
        end)
   end.
 
@@ -507,7 +514,8 @@ Definition check29 (c : case) : N :=
     Check.verdict (agree src dst ups cores downs fa impl)
       (match impl with
        | Some os => ok29 src dst ups cores downs os
-       | None => existsb seg_empty (insegs ups cores downs)
+       | None => negb (wf_input (segs_of ups) (segs_of cores) (segs_of downs))
+                 (* nothing is returned: tolerated only for segments beaconing cannot produce *)
        end)
   end.
 
